@@ -469,7 +469,7 @@ type vfDiscard struct{}
 
 func (vfDiscard) Write(p []byte) (int, error) { return len(p), nil }
 
-const c09Rule = "convergence: 2-3 real shardManagerImpl instances that know each other, 1-2 shards or (one case in twelve) 72 shards with 50-70 of them held by one instance (full state exchange first; in 30% of the histories some directed pairs have not exchanged state yet, so a node can leave before its first snapshot or announcement arrives), 1-2 shards; rapid histories of register / unregister (stream ended) / deliver(any captured real announcement to any recipient the code selected, also repeatedly) / pushpull(current or stale LocalState snapshot through MergeRemoteState) / leave(real NotifyLeave on the others); fairness epilogue: every announcement delivered at least once to every live recipient, then a fresh exchange between every live pair; oracle: per shard at most one live owner and, if a stream is still open, the owner is the node with the newest RegisterShard; nodes that left own nothing in anyone's remote view; remote views equal the others' local sets. routing: every combination of {local stream: none / room / full / closed-but-registered} x {remote owner: unknown / known without address / known with registered peer stream / known but stream missing} x {shutdown signalled} x {message, ack, ack without forwarding} through the real Deliver*ToShardOwner; oracle: truth table from the statement, exactly one recipient when true, none when false; non-trivial (convergence) = an older claim delivered after a newer one for the same shard, or a duplicate / stale snapshot after a leave; distinct = distinct histories"
+const c09Rule = "convergence: 2-3 real shardManagerImpl instances that know each other, 1-2 shards or (one case in twelve) 72 shards with 50-70 of them held by one instance (full state exchange first; in 30% of the histories some directed pairs have not exchanged state yet, so a node can leave before its first snapshot or announcement arrives), 1-2 shards; rapid histories of register / unregister (stream ended) / deliver(any captured real announcement to any recipient the code selected, also repeatedly) / pushpull(current or stale LocalState snapshot through MergeRemoteState) / leave(real NotifyLeave on the others); fairness epilogue: every announcement delivered at least once to every live recipient, then a fresh exchange between every live pair; oracle: per shard at most one live owner and, if a stream is still open, the owner is the node with the newest RegisterShard; nodes that left own nothing in anyone's remote view; remote views equal the others' local sets. routing: every combination of {local stream: none / room / full / closed-but-registered} x {remote owner: unknown / known without address / known with registered peer stream / known but stream missing} x {shutdown signalled} x {shard manager not started / started and the shard claimed / started and the claim just superseded by a peer} x {message, ack, ack without forwarding} through the real Deliver*ToShardOwner; oracle: truth table from the statement, exactly one recipient when true, none when false; non-trivial (convergence) = an older claim delivered after a newer one for the same shard, or a duplicate / stale snapshot after a leave; distinct = distinct histories"
 
 func c09Gen(t *rapid.T) c09Case {
 	c := c09Case{Nodes: rapid.IntRange(2, 3).Draw(t, "nodes"), Shards: rapid.IntRange(1, 2).Draw(t, "shards")}
@@ -629,6 +629,10 @@ type c09rCase struct {
 	Local    string `json:"local"`  // none | room | full | closed
 	Remote   string `json:"remote"` // unknown | noaddr | stream | nostream
 	Shutdown bool   `json:"shutdown"`
+	// Claim: "" = the shard manager is not started (no memberlist: every shard counts as local); "held" = started and the
+	// addressed shard is among this instance's claims; "evicted" = started, the claim has just been superseded by a
+	// peer's newer claim while the local stream (if any) is still open and registered
+	Claim string `json:"claim,omitempty"`
 }
 
 func c09rRun(t *testing.T, c c09rCase) (viol string) {
@@ -646,6 +650,14 @@ func c09rRun(t *testing.T, c c09rCase) (viol string) {
 			state := NodeShardState{NodeName: "node-b", Shards: map[string]ShardInfo{ClusterShardIDtoShortString(shard): {ID: shard, Created: time.Now()}}, Updated: time.Now()}
 			b, _ := json.Marshal(state)
 			sm.delegate.MergeRemoteState(b, false)
+		}
+		if c.Claim != "" {
+			sm.mutex.Lock()
+			sm.started = true
+			if c.Claim == "held" {
+				sm.localShards[ClusterShardIDtoShortString(shard)] = ShardInfo{ID: shard, Created: time.Now()}
+			}
+			sm.mutex.Unlock()
 		}
 		localGot, remoteGot := 0, 0
 		sd := channel.NewShutdownOnce()
@@ -868,7 +880,9 @@ func TestVF_C09_Routing(t *testing.T) {
 		for _, local := range []string{"none", "room", "full", "closed"} {
 			for _, remote := range []string{"unknown", "noaddr", "stream", "nostream", "otherpair"} {
 				for _, sd := range []bool{false, true} {
-					run(c09rCase{Kind: kind, Local: local, Remote: remote, Shutdown: sd})
+					for _, claim := range []string{"", "held", "evicted"} {
+						run(c09rCase{Kind: kind, Local: local, Remote: remote, Shutdown: sd, Claim: claim})
+					}
 				}
 			}
 		}
